@@ -129,8 +129,12 @@ package consensus
 //@ func verifyTxs
 //@   props C04 C02
 //@   requires block != nil && block.Header != nil && wfTxs(block.Txs) && params.MinGasPrice != nil
-//@   ensures result == nil ==> !txGuard.ExistTxs(block.ParentHash(), block.Txs)
+//@   ensures result == nil ==> !old(txGuard.ExistTxs(block.ParentHash(), block.Txs))
 //@   ensures result == nil ==> forall(i, 0, len(block.Txs), forall(j, 0, len(block.Txs), i != j ==> block.Txs[i].Hash() != block.Txs[j].Hash()))
 //@   ensures result == nil ==> forall(i, 0, len(block.Txs), uint64(block.Time()) <= block.Txs[i].data.Expiration && block.Txs[i].data.Expiration - uint64(block.Time()) <= 1800)
 //@   ensures result != nil ==> result == ErrVerifyBlockFailed
-//@   invariant @loop 0: 0 <= $k && $k <= len(block.Txs) && forall(i, 0, $k, uint64(block.Time()) <= block.Txs[i].data.Expiration && block.Txs[i].data.Expiration - uint64(block.Time()) <= 1800)
+//@   invariant @loop 0: 0 <= $k && $k <= len(block.Txs) && seen != nil && forall(i, 0, $k, uint64(block.Time()) <= block.Txs[i].data.Expiration && block.Txs[i].data.Expiration - uint64(block.Time()) <= 1800)
+//@   invariant @loop 0: forall(i, 0, $k, has(seen, block.Txs[i].Hash())) && forall(i, 0, $k, forall(j, 0, $k, i != j ==> block.Txs[i].Hash() != block.Txs[j].Hash()))
+//@   invariant @loop 1: len(hashes) >= 1 && hashes[0] == tx.Hash() && fresh(hashes)
+//@   invariant @loop 2: 0 <= $k && $k <= len(hashes) && len(hashes) >= 1 && hashes[0] == tx.Hash() && seen != nil && forall(i, 0, $k0, has(seen, block.Txs[i].Hash()))
+//@   invariant @loop 2: $k >= 1 ==> has(seen, tx.Hash()) && forall(i, 0, $k0, block.Txs[i].Hash() != tx.Hash())
